@@ -40,9 +40,16 @@ MANIFEST = dict(
          "on generated files (every *.dpot.imc compared row by row, grid and value, 1e-7) and "
          "linalg_constrained_qrsolve(A, b, C) (1e-9), the latter a second time with the constraint rows scaled by 2^k, "
          "k in {0, +-20, +-40, +-70} supplied by TLC (same rational expected, C x = 0 evaluated against the unscaled C). "
-         "csg_fmatch: TLC generates lattice trajectories (5-8 beads; one pair "
-         "interaction, two pair interactions of two bead types side by side, or a bond in two-bead molecules next to a "
-         "pair interaction; 1-3 blocks of 1-3 frames plus an incomplete trailing block, constrained and plain least "
+         "csg_imc_solve is also run on graded spectra A = U diag(2^-e) V with rational orthogonal U, V "
+         "(singular values down to 7e-9, exact null directions, r = 2^-t from 1e3 to 6e-11), matrix and exact solution "
+         "emitted as term lists, tolerance scaled with cond(A^T A + r I); linalg_constrained_qrsolve also in call "
+         "histories (2-4 problems of one shape, constraint matrix rewritten in place or fresh: each call must return what "
+         "it returns alone). csg_fmatch: TLC generates lattice trajectories (5-24 beads; one pair "
+         "interaction, two pair interactions of two bead types side by side, a bond in two-bead molecules next to a "
+         "pair interaction, an angle in three-bead molecules, or a periodic dihedral (fmatch.periodic) in four-bead "
+         "molecules on an equidistant or non-equidistant grid; the force function is the cubic spline through integer knot "
+         "values whose second derivatives TLC computes exactly, evaluated by the real CubicSpline from (y, y'') so that the "
+         "generator shares no continuity/boundary code with the fit; 1-3 blocks of 1-3 frames plus an incomplete trailing block, constrained and plain least "
          "squares, spline grid of 4-5 knots on a dyadic or a decimal (0.1 nm) grid, out_step = step or step/2, integer "
          "knot values, optional integer noise on the forces, nbsearch grid/simple) and guards in exact integer "
          "arithmetic that every block's least-squares problem has full rank (no force cancellation, >= 2 distinct "
@@ -54,11 +61,12 @@ MANIFEST = dict(
          "least squares through the same routine).",
     note="PARTIAL CLAIM: the two linear-algebra clauses of C06 (csg_imc_solve incl. index-file splitting; the "
          "constrained least-squares routine) and, for csg_fmatch, block independence and reproduction of a representable "
-         "force function for pair interactions (one, or two of different bead types at once) and a BOND next to a pair "
-         "interaction, without mapping, incl. --trj-force, out_step < step and decimal grids, in the relational reading (both sides of "
+         "force function for pair interactions (one, or two of different bead types at once), a BOND next to a pair "
+         "interaction, an ANGLE and a periodic DIHEDRAL (each alone), without mapping, incl. --trj-force, out_step < step and decimal grids, in the relational reading (both sides of "
          "every comparison are outputs of the real code; the spec supplies instances, well-posedness and the relation). "
-         "NOT covered: csg_fmatch with angle/dihedral interactions (the generator would need their gradients: see C07), "
-         "three-body interactions, periodic splines, mapping (C01), --trj-force together with --first-frame, an "
+         "NOT covered: angle/dihedral interactions mixed with non-bonded ones, three-body interactions, mapping (C01), "
+         "the gradients of the bonded interactions themselves (the generator takes them from the real IAngle/IDihedral: "
+         "see C07), --trj-force together with --first-frame, an "
          "absolute numeric oracle for noisy data (no exact integer model of that "
          "least-squares problem of useful size exists, and a harness that only reports 'close enough' to TLC would be a "
          "change of technique). "
